@@ -16,7 +16,7 @@ CHECKS = {
         "modules": ["PGV.Props.C02"], "audits": ["PGV/Audit/C02.lean"],
         "streams": ["walk", "flat"], "thorough_seeds": 4,
         "assumptions": WALK_ASSUME,
-        "explanation": "theorems: one rule item = one step of the loop and the loop always continues (no early exit, unknown name = one clause), nil iff nothing written, exactly one trailing separator removed; streams walk/flat compare the WHOLE error string of Struct/Var/Map/Url calls on synthesised types with the model",
+        "explanation": "theorems: every walker function only appends (frame theorem by mutual structural induction over value trees), outputs concatenate in declaration / index / rule order, one rule item = one step of the loop and the loop always continues, nil iff nothing written, exactly one trailing separator removed; streams walk/flat compare the WHOLE error string of Struct/Var/Map/Url calls on synthesised types with the model",
     },
     "C03": {
         "modules": ["PGV.Props.C03"], "audits": ["PGV/Audit/C03.lean"],
@@ -219,8 +219,8 @@ MANIFEST_TEXT = {
 
     "C02": {
         "technique": "Lean 4 theorems (one-step equations of the rule loops, getError) + differential correspondence on whole error strings",
-        "text": "Theorems for every configuration, field, value, continuation and state: a rule item contributes its own text and the loop continues with the remaining items (built-in, registered, unknown, empty item; struct fields and Var/Map/Url), the error is nil iff nothing was written and otherwise the text minus exactly one separator. The order-preserving concatenation over fields and nested objects is carried by the correspondence: streams walk and flat compare the WHOLE error string (modulo Go map order) of calls on synthesised struct types with the model.",
-        "note": "Trusted: Lean kernel; reflect transcription; correspondence bounds the model=code tie. The full refinement 'walker = render(list of violated instances)' is not yet a single theorem: the step equations are, and the model is run against the code on the whole string.",
+        "text": "Theorems for every configuration, value tree (any depth and width), continuation and state: C02_walker_appends / C02_fields_append / C02_flat_rules_append (mutual structural induction) — every walker function only appends: what it writes never depends on, and never touches, what is already in the buffer; C02_fields_in_order, C02_elements_in_order, C02_rules_in_order — the output of a struct / collection / rule list is the output of the first field / element / item followed by the output of the rest (declaration, index and rule order); the rule-loop step equations (a built-in, registered, unknown or empty item contributes its own text and the loop continues — no early exit); C02_nil_iff and C02_no_trailing_separator for getError. Tie: streams walk and flat compare the WHOLE error string (modulo Go map order) of calls on synthesised struct types with the model.",
+        "note": "Trusted: Lean kernel; reflect transcription; correspondence bounds the model=code tie. 'Exactly one clause per violated instance' rests on each rule function writing at most one clause, which is read off the model (violClause) and checked per rule by correspondence.",
     },
     "C03": {
         "technique": "Lean 4 theorems (rule-loop equations for required / zero-skip / missing entries) + differential correspondence",
